@@ -14,6 +14,21 @@ CLAIMED = {
  "C11": ("exhaustive census over sdk.Msg types and service descriptors, key-component provenance, commit-path guard analysis (oracle, wasm), ante-chain order check",
          "all 45 message types return exactly [Creator] as signers and are routable; provider/collateral/inbox/block-list/primary-name/pubkey/file-deletion writes are keyed by the signer; feed updates behind Eq(Feed.Owner,signer); the wasm binding reaches the storage handler only behind creator==contract and ValidateBasic; ante order ValidateBasic<SetPubKey<SigVerification. Signature cryptography is trusted.",
          "DESIGN.md §5 C11"),
+ "C01": ("commit-path guard analysis with shape-recognised verifier/prover functions, provenance of verifier inputs, who-may-write census over entry points",
+         "every write of storage.MsgPostProof lies, on every nil-error return, behind the nil result of the call whose callee returns nil only after the Merkle-library verification, and behind msg.ToProve == stored challenge; the verifier is fed the stored challenge and the stored root; only PostProof and the attestation quorum path can write proof records; reward credit is keyed by the prover of a listed proof record. Cryptographic soundness is trusted.",
+         "DESIGN.md §5 C01"),
+ "C14": ("commit-path guard analysis (quorum comparison, matched flag, form found), phi-web analysis of the counter and flag, must-pass-through of the form deletion, provenance of form entries",
+         "proof refresh / prover removal / form deletion happen on all paths only behind count >= Param(AttestMinToPass) with direct operands and the signer-matched flag; the counter counts only complete entries; flag and Complete are set only under Eq(entry.Provider, signer); acting paths delete the loaded form; forms are built from the stored active-provider list behind the size check. Distinctness of providers / never-the-prover is not decided.",
+         "DESIGN.md §5 C14"),
+ "C17": ("store-effect pairing with must-pass-through path search, field-write census of the prover list, commit-path guard analysis with flag lifting",
+         "single-index file writes/deletes are always paired on all paths with the other index and identical arguments; every prover-list assignment is followed by the matching proof-record update and file save; appends happen only if absent and below the replication limit; proof records copy the file's key fields; file removal deletes listed proofs. History-level equality is not decided.",
+         "DESIGN.md §5 C17"),
+ "C18": ("store-effect model (prefix typing over all modules), commit-path guard analysis with shape-recognised block predicate, record-field provenance, key-component analysis",
+         "one proto type per store prefix and no overlapping prefixes; the notification write is behind blockPredicate(recipient, signer)=false with To/From/Time/Contents of the stated provenance; deletion keyed by the signer's inbox; only CreateNotification writes notifications; the inbox listing iterates the key's leading component. One known finding (blocks share the notification prefix).",
+         "DESIGN.md §5 C18"),
+ "C19": ("store-effect model over the call graph: written/exported/imported prefix sets per module, prefix typing, GenesisState field census",
+         "every record kind written by transactions or block processing is exported and imported (or is a derived index), exported prefixes are singly typed, every GenesisState field is assigned by Export and consumed by Init. Five known findings (proof records, primary names, emission history, block lists). Value-level round-trip equality is not decided.",
+         "DESIGN.md §5 C19"),
 }
 NA = {}
 props = [json.loads(l) for l in open('properties.jsonl')]
